@@ -11,6 +11,10 @@ RELATED = {  # checks run in addition to the property's own one
     "C13g": ["C15", "C16"], "C13h": ["C17"], "C05g": ["C14", "C03"], "C05h": ["C01", "C13", "C11"], "C06g": ["C03"], "C06h": ["C03", "C01"],
     "C03g": ["C05", "C06"], "C03h": ["C12"], "C17g": ["C12", "C16"], "C17h": ["C01"], "C01g": ["C13"], "C08h": ["C12"], "C10h": ["C11", "C16"],
     "C16g": ["C17", "C12"], "C16h": ["C17", "C13"], "C04g": ["C05"], "C04h": ["C11", "C05"], "C15h": ["C16"], "C12g": ["C17", "C16"], "C12h": ["C10"],
+    "C09i": ["C15", "C10"], "C09j": ["C15", "C13"], "C05i": ["C17"], "C05j": ["C11"], "C07j": ["C02"], "C03i": ["C11", "C04"], "C03j": ["C11", "C05"],
+    "C13i": ["C15"], "C13j": ["C15"], "C08j": ["C12"], "C10i": ["C17"], "C10j": ["C16"], "C06i": ["C03"], "C06j": ["C03", "C11"], "C17j": ["C10"],
+    "C12i": ["C05", "C02"], "C12j": ["C02"], "C15i": ["C13"], "C15j": ["C13"], "C16i": ["C12"], "C16j": ["C10", "C11"], "C14i": ["C12"], "C14j": ["C05", "C02"],
+    "C11i": ["C10"], "C11j": ["C05"], "C01i": ["C15", "C13"], "C01j": ["C04", "C03"], "C04i": ["C01"], "C04j": ["C05", "C14"], "C02i": ["C01", "C15"], "C02j": ["C12", "C05"],
     "C02g": ["C01", "C15"], "C02h": ["C12", "C05"], "C07g": ["C02"], "C11g": ["C03", "C05"], "C14g": ["C12", "C08"], "C14h": ["C01", "C03"],
 }
 def props_of(name):
